@@ -84,7 +84,7 @@ def check_getters(prog: Program, rep: Report, spec: Dict[str, Any], rid: str, cl
         ok = any(cv == canon(w) for w in want)
         if ok and cv != canon(want[0]):
             rep.note(f"{g}: accepted equivalent form - {entry['accept'][0].get('reason', '')}")
-        rep.check(ok, rid, g, where,
+        rep.check_term(ok, v, rid, g, where,
                   f"{g} extracts {T.show(v)[:260]}; the reference layout says {T.show(want[0])[:260]}",
                   "extraction term equals the reference layout", key=f"{rid}|{g}")
     return derived
@@ -96,6 +96,7 @@ def run(prog: Program, rep: Report, tier: str) -> None:
     rep.rule("R5.3", "constructor wiring: for every device type the field f of the delivered object is the extraction term of role f (id, key, ip of the right family, mac, name, ...)", 60)
     rep.rule("R5.4", "exactly one callback per accepted datagram, with the device class of the type's category", 9)
     rep.rule("R5.5", "OFF normalisation: power, current and remaining time are 0 / 0.0 / '00:00:00' exactly when the reported state is not ON", 7)
+    rep.rule("R5.7", "fields that are normalised away when the device is not ON (power, remaining time) are not even examined on that path: their bytes cannot make a not-ON broadcast fail to be delivered", 6)
     rep.rule("R5.6", "helper normal forms: seconds_to_iso_time(x) = time(x//3600, (x//60)%60, x%60).isoformat(); watts_to_amps(w) = round(w/220, 1)", 2)
     rep.trusted += [
         "socket.inet_ntoa, bytes.decode, datetime.time.isoformat, round (library behaviour)",
@@ -183,7 +184,9 @@ def run(prog: Program, rep: Report, tier: str) -> None:
                 alts = [want]
                 if role in spec["getters"]:
                     alts += [LS.term_of(prog, a, MSG) for a in spec["getters"][role].get("accept", [])]
-                if all(canon(got) != canon(w_) for w_ in alts):
+                if all(canon(got) != canon(w_) for w_ in alts) and (T.imprecise(got) is not None):
+                    record(field_ok, fname, f"UNDECIDED:{T.imprecise(got)}")
+                elif all(canon(got) != canon(w_) for w_ in alts):
                     record(field_ok, fname, f"{cn}.{fname} for {m} is {T.show(got)[:200]}; expected role {role}: {T.show(want)[:200]}")
                 else:
                     record(field_ok, fname, None)
@@ -212,6 +215,26 @@ def run(prog: Program, rep: Report, tier: str) -> None:
                 else:
                     rep.ok("R5.2", f"{m} -> {cn}", where, f"{len(ranges)} wire ranges pairwise disjoint")
         rep.check(ok54, "R5.4", f"{m}", where, why54, f"one callback with {want_cls}", key=f"R5.4|{m}")
+        # R5.7: on not-ON paths nothing depends on the bytes of the normalised fields
+        if cat in ("WATER_HEATER", "POWER_PLUG"):
+            dspec0 = spec["devices"][want_cls[0]]["fields"]
+            st_term = expected_role(prog, spec, dspec0["device_state"], None)
+            cond_on = state_is_on(st_term, on)
+            norm_ranges = set(LS.nibble_ranges(LS.term_of(prog, spec["getters"]["get_power_consumption"], MSG), MSG))
+            if cat == "WATER_HEATER":
+                norm_ranges |= set(LS.nibble_ranges(LS.term_of(prog, spec["getters"]["get_remaining"], MSG), MSG))
+            bad57 = None
+            for o in outs:
+                if _neg(cond_on) not in o.state.pc:
+                    continue
+                for g in o.state.pc:
+                    if g == _neg(cond_on):
+                        continue
+                    touched = set(LS.nibble_ranges(g, MSG)) & norm_ranges
+                    if touched:
+                        bad57 = (f"on the path where {m} reports not-ON, the outcome ({'raises ' + o.exc_name if o.kind == 'raise' else 'delivery'}) depends on nibbles {sorted(touched)} of a field that is "
+                                 f"reported as zero in that state (guard {T.show(g)[:160]}): an OFF broadcast with an out-of-range value there is no longer delivered")
+            rep.check(bad57 is None, "R5.7", f"{m}", where, bad57 or "", key=f"R5.7|{want_cls[0]}")
         for fname, why in field_ok.items():
             rid = "R5.3"
             inst = f"{m}.{fname}"
